@@ -24,7 +24,7 @@ REAL, STUBBED = C.REAL, C.STUBBED
 
 
 def budget(tier):
-    return dict(nights=90, wall_s=170) if tier == "quick" else dict(nights=2400, wall_s=1700)
+    return dict(nights=180, wall_s=240) if tier == "quick" else dict(nights=2400, wall_s=1700)
 
 
 WORLD = dict(offices=["G", "S", "H", "H"], unit_types=["precinct", "precinct", "county"], n_states=(2, 4), n_counties=(2, 5),
